@@ -415,3 +415,143 @@ func TestVF_C11_Rapid(t *testing.T) {
 	}
 	rapid.Check(t, func(rt *rapid.T) { run(rt, c11Gen(rt)) })
 }
+
+
+// TestVF_C11_NotifyOrder (real time, no bubble: a goroutine waiting on the manager's table mutex is not "durably
+// blocked", so this schedule cannot be owned inside a synctest bubble). A session is added and, while the listeners are
+// being told about it (the harness holds that notification), another session dies. Whatever the timing, once both
+// notifications are through the dialable set must equal the registered set.
+func TestVF_C11_NotifyOrder(t *testing.T) {
+	const part = "notifyorder"
+	if rp := vfshared.ReplayPart(); rp != "" && rp != part {
+		t.Skip()
+	}
+	st := vfshared.NewStats("C11", part, "real-time schedule: the notification of an added session is held back while another session is removed (remotely or locally closed), then released; oracle: afterwards the endpoints the client connection may dial equal the registered sessions; non-trivial = every case (an add notification overlaps a removal)")
+	defer st.Flush()
+	for iter, by := range []string{"remote", "local", "remote", "local"} {
+		ctx, cancel := context.WithCancel(context.Background())
+		mcc, err := NewMultiClientConn(ctx, fmt.Sprintf("vf-c11o-%d", iter), MakeDialOptions(nil, metrics.GetGRPCClientMetrics("outbound"))...)
+		if err != nil {
+			t.Fatalf("HARNESS: %v", err)
+		}
+		var gmu sync.Mutex
+		var holdNext chan struct{}
+		cp := &c11ConnProvider{attempts: make(chan chan net.Conn), closeCh: make(chan struct{})}
+		mgr, err := mux.NewCustomMultiMuxManager(ctx, "vf", func(cb mux.AddNewMux, lifetime context.Context) (mux.MuxProvider, error) {
+			sessionFn := func(conn net.Conn) (*yamux.Session, error) {
+				cfg := yamux.DefaultConfig()
+				cfg.LogOutput = io.Discard
+				return yamux.Client(conn, cfg)
+			}
+			return mux.NewMuxProvider(lifetime, "vf", cp, sessionFn, 4, cb, []string{"vf", "vf", "vf"}, log.NewNoopLogger()), nil
+		}, []session.StartManagedComponentFn{}, []mux.OnConnectionListUpdate{func(m map[string]session.ManagedMuxSession) {
+			gmu.Lock()
+			g := holdNext
+			holdNext = nil
+			gmu.Unlock()
+			if g != nil {
+				<-g
+			}
+			mcc.OnConnectionListUpdate(m)
+		}}, log.NewNoopLogger())
+		if err != nil {
+			t.Fatalf("HARNESS: %v", err)
+		}
+		go mgr.Start()
+		type far struct {
+			conn net.Conn
+			sess *yamux.Session
+		}
+		add := func() far {
+			ch := <-cp.attempts
+			near, fc := net.Pipe()
+			cfg := yamux.DefaultConfig()
+			cfg.LogOutput = io.Discard
+			fs, _ := yamux.Server(fc, cfg)
+			ch <- near
+			return far{fc, fs}
+		}
+		waitFor := func(cond func() bool) bool {
+			for i := 0; i < 400; i++ {
+				if cond() {
+					return true
+				}
+				time.Sleep(5 * time.Millisecond)
+			}
+			return false
+		}
+		a := add()
+		if !waitFor(func() bool { return len(mgr.GetMuxConnections()) == 1 && mcc.CanMakeCalls() }) {
+			t.Fatalf("HARNESS: first session did not register")
+		}
+		var aID string
+		for id := range mgr.GetMuxConnections() {
+			aID = id
+		}
+		gate := make(chan struct{})
+		gmu.Lock()
+		holdNext = gate
+		gmu.Unlock()
+		b := add() // its notification parks at the gate
+		time.Sleep(150 * time.Millisecond)
+		if by == "remote" {
+			_ = a.sess.Close()
+			_ = a.conn.Close()
+		} else {
+			done := make(chan struct{})
+			go func() { // the table lock may be held by the parked notification
+				defer close(done)
+				if s, ok := mgr.GetMuxConnections()[aID]; ok {
+					s.Close()
+				}
+			}()
+			select {
+			case <-done:
+			case <-time.After(100 * time.Millisecond):
+			}
+		}
+		time.Sleep(300 * time.Millisecond)
+		close(gate)
+		time.Sleep(400 * time.Millisecond) // let the held notification and everything queued behind it go through
+		var reg, dial []string
+		ok := waitFor(func() bool {
+			reg, dial = nil, nil
+			for id := range mgr.GetMuxConnections() {
+				reg = append(reg, id)
+			}
+			mcc.connMapLock.RLock()
+			for id := range mcc.connMap {
+				dial = append(dial, id)
+			}
+			mcc.connMapLock.RUnlock()
+			sort.Strings(reg)
+			sort.Strings(dial)
+			return len(reg) == 1 && fmt.Sprint(reg) == fmt.Sprint(dial)
+		})
+		c := map[string]any{"removed_by": by, "iteration": iter}
+		st.Case(vfshared.Fingerprint(by, iter), true)
+		st.Sample(c)
+		cancel()
+		_ = b.sess.Close()
+		_ = b.conn.Close()
+		_ = a.sess.Close()
+		_ = a.conn.Close()
+		if !ok {
+			time.Sleep(300 * time.Millisecond)
+			p := vfshared.WriteReplay("C11", part, c)
+			msg := fmt.Sprintf("a session was added while another one was being removed (%s close): afterwards the client connection may dial %v but the registered sessions are %v", by, dial, reg)
+			st.Violation(p, msg)
+			t.Fatalf("C11 violated: %s (replay %s)", msg, p)
+		}
+		go func() { // drain pending attempts of the dying provider
+			for {
+				select {
+				case ch := <-cp.attempts:
+					close(ch)
+				case <-time.After(2 * time.Second):
+					return
+				}
+			}
+		}()
+	}
+}
